@@ -115,7 +115,7 @@ T4 == Thing(1, "b", << <<3>> >>, <<>>)
 
 Things(level) ==
   IF level <= 1 THEN {T1, T2, T3, T4}
-  ELSE {Thing(i, nm, nums, tag) : i \in {1, 2}, nm \in {"a", "b"}, nums \in {<<>>, << <<>> >>, << <<1, 2>> >>}, tag \in {<<>>, <<"t">>}}
+  ELSE {T1, T2, T3, T4} \cup {Thing(i, nm, nums, tag) : i \in {1, 2}, nm \in {"a", "b"}, nums \in {<<>>, << <<>> >>, << <<1, 2>> >>}, tag \in {<<>>, <<"t">>}}
 
 ThingSeqs(level) ==
   IF level <= 1 THEN {<<>>, <<T1>>, <<T1, T2>>, <<T2, T1>>, <<T3, T4>>}
